@@ -57,16 +57,17 @@ CHECKS = {
     "SMOKE": {"runs": [{"entry": M + ".HarnessL1Smoke", "pkgs": CORE, "must_reach": ["smoke-end"]}]},
     "C01": {
         "claim": {
-            "text": "bounded model checking of the real Config/compose/overlay/deep-copy/Pointerify code over a corpus of 7 config struct types: every set/unset pattern of every leaf in 1-2 (thorough 3) layers is explored and every leaf value is symbolic, so the solver proves 'last source that set it wins, else default' against an independent reference model for all values",
+            "text": "bounded model checking of the real Config/compose/overlay/deep-copy/Pointerify code over a corpus of 7 config struct types plus a generated family (every struct of <=2, thorough 3, fields over a 12-kind alphabet in every order, built with reflect.StructOf and stacked through the real compose): every set/unset pattern of every leaf in 1-2 (thorough 3) layers is explored and every leaf value is symbolic, so the solver proves 'last source that set it wins, else default' against an independent reference model for all values",
             "note": "types are a hand-written corpus (enumerated, not solved); layers are built by field name through the pointerified type like decoders do; reflect is a model validated natively on sampled paths; interface-typed config fields are outside",
             "design_ref": "DESIGN.md §4 C01",
         },
         "runs": [seq("HarnessC01T1", ["c01-end"]), seq("HarnessC01T2", ["c01-end"]), seq("HarnessC01T3L1", ["c01-end"], ["quick"]),
                  seq("HarnessC01T4L1", ["c01-end"], ["quick"]), seq("HarnessC01T5", ["c01-end"]), seq("HarnessC01T6", ["c01-end"]),
-                 seq("HarnessC01T7", ["c01-end"]), conc("HarnessC02History2", ["c02-hist-end"]), seq("HarnessC01T3", ["c01-end"], ["thorough"]), seq("HarnessC01T4", ["c01-end"], ["thorough"]),
+                 seq("HarnessC01T7", ["c01-end"]), conc("HarnessC02History2", ["c02-hist-end"]), seq("HarnessC01Gen2", ["c01-gen-end"]),
+                 seq("HarnessC01Gen2L2", ["c01-gen-end"], ["thorough"]), seq("HarnessC01Gen3", ["c01-gen-end"], ["thorough"]), seq("HarnessC01T3", ["c01-end"], ["thorough"]), seq("HarnessC01T4", ["c01-end"], ["thorough"]),
                  seq("HarnessC01T2L3", ["c01-end"], ["thorough"]), seq("HarnessC01T7L3", ["c01-end"], ["thorough"])],
-        "bounds": {"quick": "7 types (scalars/durations, skipped fields in every position, nested+pointer+embedded structs, slices/maps/arrays, user pointers, text-unmarshalable value+pointer, deep nesting); 2 layers (1 for the two biggest types); slices len<=2, maps <=1 entry; all scalar values",
-                   "thorough": "same corpus, 2 layers everywhere, 3 layers on the small types"},
+        "bounds": {"quick": "7 types (scalars/durations, skipped fields in every position, nested+pointer+embedded structs, slices/maps/arrays, user pointers, text-unmarshalable value+pointer, deep nesting); 2 layers (1 for the two biggest types); slices len<=2, maps <=1 entry; all scalar values; generated family: all 12+144 types of 1-2 fields over {int8,string,[]int16,map,*int,struct,*struct,[2]uint8,dials:\"-\",chan,func,text-unmarshalable}, 1 layer",
+                   "thorough": "same corpus, 2 layers everywhere, 3 layers on the small types; generated family: all 1728 three-field types (1 layer), all 144 two-field types (2 layers)"},
         "outside": "other struct types; more layers; longer slices/maps; interface-typed fields; floats/complex are drawn from 2-3 concrete values",
         "assumptions": REFLECT_ASSUME,
     },
@@ -153,7 +154,7 @@ CHECKS = {
         },
         "runs": [conc("HarnessC08Quick", ["c08-end"]), conc("HarnessC08Seq2", ["c08-end"]), conc("HarnessC08DoubleUnregister", ["c08-double-unreg-end"]),
                  conc("HarnessC08LateCalls", ["c08-late-end"]), conc("HarnessC08BlockedCallback", ["c08-blocked-end"]), conc("HarnessC08BlockingCancel", ["c08-blocking-cancel-end"]),
-                 conc("HarnessC08Thorough", ["c08-end"], ["thorough"])],
+                 conc("HarnessC08Thorough", ["c08-end"], ["thorough"], maxpaths=3000000)],
         "bounds": {"quick": "2 callers x 1 op, 2 sequential ops, 8-op alphabet, delay on/off; all schedules", "thorough": "2+1 ops; blocked-callback run of 67 updates"},
         "outside": "longer operation sequences; more than 2 callers",
         "assumptions": CONC_ASSUME,
